@@ -158,7 +158,7 @@ func c27(p *an.Prog, r *an.R, tier string) {
 			continue
 		}
 		for k, lhs := range as.Lhs {
-			field, idx := c27RegexpField(qi, lhs)
+			field, idx := c27RegexpFieldIn(qi, unc.Decl.Body, lhs)
 			if field == "" {
 				continue
 			}
@@ -307,6 +307,9 @@ func c27LiteralShortcut(p *an.Prog, r *an.R) {
 // defined from re.Sub[k], inside clause cc.
 func c27FromSub(info *types.Info, scope ast.Node, e ast.Expr, re types.Object) bool {
 	isSub := func(x ast.Expr) bool {
+		if dd := defOf(info, scope, x); dd != nil {
+			x = dd // `subs := re.Sub`
+		}
 		se, ok := ast.Unparen(x).(*ast.SelectorExpr)
 		if !ok || se.Sel.Name != "Sub" {
 			return false
@@ -344,11 +347,21 @@ func c27FromSub(info *types.Info, scope ast.Node, e ast.Expr, re types.Object) b
 
 // c27RegexpField: lhs is x.F or x.Sub[i] with x of type *syntax.Regexp.
 func c27RegexpField(info *types.Info, lhs ast.Expr) (string, ast.Expr) {
+	return c27RegexpFieldIn(info, nil, lhs)
+}
+
+// c27RegexpFieldIn also resolves `subs := r.Sub; subs[i] = ..` when body is given.
+func c27RegexpFieldIn(info *types.Info, body ast.Node, lhs ast.Expr) (string, ast.Expr) {
 	var idx ast.Expr
 	e := ast.Unparen(lhs)
 	if ix, ok := e.(*ast.IndexExpr); ok {
 		idx = ix.Index
 		e = ast.Unparen(ix.X)
+		if body != nil {
+			if dd := defOf(info, body, e); dd != nil {
+				e = ast.Unparen(dd)
+			}
+		}
 	}
 	se, ok := e.(*ast.SelectorExpr)
 	if !ok || info.Selections[se] == nil {
